@@ -363,8 +363,12 @@ def check_C11(v, tier, rng):
         ops = list(head)
         dec_idx = []
         givens = []
-        for (o2, r2) in variants:
-            ops.append('D.new %s %s %d %d %d' % (codec, engine, K, R, sb))
+        reuse = rng.random() < 0.5     # the selections are given to ONE decoder object, round after round
+        for vi, (o2, r2) in enumerate(variants):
+            if vi == 0 or not reuse:
+                ops.append('D.new %s %s %d %d %d' % (codec, engine, K, R, sb))
+            elif rng.random() < 0.5:
+                ops.append('D.reset %d %d %d' % (K, R, sb))
             adds = [('o', i) for i in o2] + [('r', j) for j in r2]
             mode = rng.choice(['shuffle', 'orig_first', 'rec_first', 'reverse'])
             if mode == 'shuffle':
@@ -378,15 +382,18 @@ def check_C11(v, tier, rng):
             dec_idx.append(len(ops) - 1)
             givens.append(sorted(o2))
         cases.append(Case('ord%d' % n, ops, dict(codec=codec, engine=engine, K=K, R=R, sb=sb, seed=seed, cls=cls,
-                                                 dec_idxs=dec_idx, givens=givens, given_r=sorted(rs))))
+                                                 dec_idxs=dec_idx, givens=givens, given_r=sorted(rs), reused=reuse)))
     w = [4 * model_weight(c) for c in cases]
-    impl = run_cases('impl', cases, 'C11', weights=w)
+    poison = rng.randint(1, 2 ** 62)
+    v.extra['poison_seed'] = poison
+    impl = run_cases('impl', cases, 'C11', weights=w, poison=poison)
     model = run_cases('model', cases, 'C11', weights=w)
     for c in cases:
         m = c.meta
         res = impl.get(c.id) or []
         note_case(v, c, (m['K'], m['R'], m['codec'], m['engine'], m['sb'], m['seed'], tuple(m['givens'][0]), tuple(m['given_r'])))
         v.count('%s/%s/%s' % (m['cls'], m['codec'], m['engine']))
+        v.count('decoder=%s' % ('one object for all selections' if m.get('reused') else 'fresh per selection'))
         for di, given in zip(m['dec_idxs'], m['givens']):
             pr = parse_round(res[di]) if len(res) > di else None
             exp = {i: orig_bytes(m['seed'], i, m['sb']).hex() for i in range(m['K']) if i not in given}
